@@ -74,6 +74,8 @@ def make(x):
     if isinstance(x, int):
         return x
     if isinstance(x, str):
+        if x == 'N':
+            return None           # None is an ordinary element of a Stream (only IterableQueue reserves it)
         if x == 'V':
             return ValueError('V')
         if x == 'K':
@@ -90,6 +92,8 @@ def enc(x):
     """Python object -> JSON token (unknown things become strings that match nothing)"""
     if type(x) is int:
         return x
+    if x is None:
+        return 'N'
     if isinstance(x, BaseException):
         if isinstance(x, UserErr):
             return 'U'
@@ -110,6 +114,8 @@ def tagged(x):
     if isinstance(x, int):
         return {'t': 'int', 'v': x}
     if isinstance(x, str):
+        if x == 'N':
+            return {'t': 'nil', 'v': 0}
         return {'t': 'exc', 'v': x} if x in ('V', 'K', 'U', 'T') else {'t': 'exc', 'v': 'other'}
     return {'t': 'list', 'v': [tagged(y) for y in x]}
 
@@ -373,7 +379,7 @@ def _run_cases(job, under_sched):
 
 # ---- code -> spec: random longer programs, judged by TLC (StreamOpsCheck.tla) --------------------------------------
 
-BIG_ALPHABET = [0, 1, 2, 3, 4, 5, 'V', 'K', 'U', [], [1], [2, 1], [[1], 2, []], ['V', 3], [[], [4, [5]]]]
+BIG_ALPHABET = [0, 1, 2, 3, 4, 5, 'V', 'K', 'U', [], [1], [2, 1], [[1], 2, []], ['V', 3], [[], [4, [5]]], 'N', 'N', ['N', 1]]
 
 
 def gen_program(rnd, depth, cur_len_guess):
